@@ -1,23 +1,27 @@
 /-
   C01 — property theorems.  Every `theorem` in this file is an obligation of the check.
 
-  Subject: the wrapper programs `Gen.lazyWrapper`, `Gen.lazyWrapperWd`, `Gen.ezUnpackAuth`, the signature check
-  `Gen.verifySignature`, the sender `Gen.ezrPack` and the handler table `Gen.overlays` are all REGENERATED from /repo on
-  every run (tools/gen_c01.py), so these theorems are re-proved against what the code says now.
+  Subject: the wrapper programs `Gen.lazyWrapper`, `Gen.lazyWrapperWd`, `Gen.ezUnpackAuth` (one `Op` per Python
+  statement, translated on every run), the slices of `Gen.verifySignature`, and the handler table `Gen.overlays` (read
+  from the live classes).  `Gen.ezrPack`, `Gen.prefixLen/msgIdOffset` and the skeleton of `Gen.verifySignature` are
+  fixed texts that the translator emits only after checking the source against an exact pattern ("checked", not
+  "translated").
 
-  The signature scheme is abstract (`Scheme`).  Its laws are explicit hypotheses:
-    `WellSized S`    0 < sigLen k ≤ |key bytes| + 2 for every key that parses (true for all five shipped curves;
-                     the harness re-checks it on every key it meets)
-    `Canon S`        a canonical key encoding parses to itself
-    `NetOK S net`    `verified_by_public_key_bin` maps key bytes to a Peer holding exactly that key
-                     (an invariant of `Network.add_verified_peer`; preserved by `Node.recv`, see `history_sound`)
-    `Unforgeable`    only in `tamper_rejected`: a valid signature implies the key holder signed exactly these bytes
-  Each bundle has an `example` instance below (a toy scheme), so no theorem is vacuous.
+  The signature scheme is abstract (`Scheme`).  Its laws are explicit hypotheses (Lemmas.lean), never axioms:
+    `WellSized S`     0 < sigLen k ≤ |key bytes| + 2 for every key that parses
+    `Canon S`         a canonical key encoding parses to itself
+    `NetOK S net`     `verified_by_public_key_bin` maps key bytes to a Peer holding exactly that key (a run-time
+                      invariant of network.py; preserved by the model's `Node.recv`, see `history_sound`; on the code it
+                      is only sampled by the harness)
+    `OnlySigned`      unforgeability for one key: everything that verifies under `k` is in the list of messages its
+                      holder signed (only in the tampering theorems)
+  Examples at the end instantiate every bundle non-trivially (a scheme whose parser fails on short keys and strips
+  trailing bytes, a network with a stored peer).
 
-  The soundness theorems are stated for EVERY wrapper program that passes the static guard `guarded` (Guard.lean): they
-  do not depend on the exact statement order of today's wrappers, only on "no Peer-call unless the key field at 23 was
-  verified, asserted, and the payloads / the peer come from that same verification".  `gen_wrappers_guarded` (`decide`)
-  says the programs translated from the source pass the guard.
+  The soundness theorems are stated for EVERY wrapper program that passes the static guard `guarded` (Guard.lean).
+  What is NOT covered by any theorem: handler bodies (the history theorem ASSUMES a handler adds at most the Peer it was
+  handed), code that adds verified peers outside handlers (DHT PingChurn, discover_address), cell handlers, payload
+  decoding (abstract), computational unforgeability.
 -/
 import Ipv8.C01.Lemmas
 
@@ -26,29 +30,13 @@ open Ipv8
 
 variable {P : Type}
 
-/-! ### hypotheses on the scheme -/
-
-structure WellSized (S : Scheme) : Prop where
-  pos : ∀ kb k, S.parse kb = some k → 0 < S.sigLen k
-  le : ∀ kb k, S.parse kb = some k → S.sigLen k ≤ kb.length + 2
-
-def Canon (S : Scheme) : Prop := ∀ kb k, S.parse kb = some k → S.parse k = some k
-
-def NetOK (S : Scheme) (net : Bytes → Option Bytes) : Prop := ∀ kb k, net kb = some k → S.parse kb = some k
-
-/-- what the property promises about one handler invocation with peer key `k` and payloads `p` -/
-def Delivered (E : Env P) (data k : Bytes) (p : P) : Prop :=
-  ∃ kb signed sg,
-    keyField E.strict data = some kb ∧          -- the key is the varlenH field at offset 23 of this datagram
-    E.S.parse kb = some k ∧                      -- the peer handed to the handler is exactly that key
-    data = signed ++ sg ∧ sg.length = E.S.sigLen k ∧   -- the datagram ends in a signature of that key's length
-    E.S.verify k signed sg = true ∧              -- valid over EVERY byte that precedes it
-    23 ≤ signed.length ∧                         -- which includes the overlay prefix and the message id
-    E.decode (signed.drop (2 + kb.length)) 23 = some p   -- and every byte the payload decoder reads
+/-- `DeliveredBy` with the handler's own payload decoder -/
+abbrev Delivered (E : Env P) (data k : Bytes) (p : P) : Prop := DeliveredBy E E.decode data k p
 
 /-! ### the generated definitions are what the theorems below are about -/
 
-/-- `_verify_signature` as translated: key from the carried bytes, verification over `data[:-n]` with `data[-n:]` -/
+/-- tripwire: `_verify_signature` as translated verifies `data[:-n]` with `data[-n:]` under the key parsed from the
+    carried bytes, remainder `data[2+|key|:-n]` (the three slices are translated from the AST; the skeleton is checked) -/
 theorem gen_verifySignature_is_reference (S : Scheme) (kb data : Bytes) :
     Gen.verifySignature S kb data = refVerifySignature S kb data := rfl
 
@@ -64,9 +52,9 @@ structure GuardedProgs (G : Progs) : Prop where
   ezUnpackAuthNoPeer : noPeerCall G.ezUnpackAuth = true
 
 /-- the wrapper bodies translated from lazy_community.py pass the static guard: in `lazy_wrapper`, `lazy_wrapper_wd`
-    and `_ez_unpack_auth` the call / return is reached only after unpack(23) → verify → `if not signature_valid: raise`,
-    with payloads decoded from that verification's remainder and the peer looked up under that key; the unsigned
-    wrappers contain no Peer-call -/
+    and `_ez_unpack_auth` the call / return — and the address update of the stored Peer — is reached only after
+    unpack(23) → verify → `if not signature_valid: raise`, with payloads decoded from that verification's remainder and
+    the peer looked up under that key; the unsigned wrappers contain no Peer-call -/
 theorem gen_wrappers_guarded : GuardedProgs Gen.progs :=
   ⟨by decide, by decide, by decide, by decide, by decide, by decide, by decide, by decide⟩
 
@@ -107,16 +95,13 @@ theorem deliver_sound (E : Env P) (hv : E.verifySig = Gen.verifySignature) (hS :
     (hN : NetOK E.S E.net) (prog : List Op) (hg : guarded prog = true)
     (data k : Bytes) (p : P) (wd : Option Bytes) (h : run E prog data = .called k p wd) :
     Delivered E data k p := by
-  obtain ⟨kb, hkf, hpk, hver, hdec⟩ := deliver_raw E hv hN prog hg data k p wd h
-  have hpos := hS.pos kb k hpk
-  have hle := hS.le kb k hpk
-  have hlen := keyField_length hkf
-  have hn : E.S.sigLen k ≤ data.length := by omega
-  rw [slice_signed _ _ hpos, slice_sig _ _ hpos] at hver
-  rw [slice_remainder _ _ _ hpos] at hdec
-  obtain ⟨hsplit, hsl⟩ := split_at_sig data (E.S.sigLen k) hn
-  exact ⟨kb, data.take (data.length - E.S.sigLen k), data.drop (data.length - E.S.sigLen k), hkf, hpk, hsplit, hsl,
-    hver, by simp; omega, hdec⟩
+  obtain ⟨kb, e, rem, hu, hver, hdec, hk, _⟩ := run_guarded_called hg h
+  have hpk : E.S.parse kb = some k := by
+    rcases hk with hk | ⟨_, hk⟩
+    · exact hN kb k hk
+    · exact hk
+  obtain ⟨signed, sg, hkf, hsplit, hsl, hvf, h23, hrem⟩ := checked_core hv hS hu hver hpk
+  exact ⟨kb, signed, sg, hkf, hpk, hsplit, hsl, hvf, h23, by rw [← hrem]; exact hdec⟩
 
 /-- if a guarded wrapper passes a raw datagram along (`lazy_wrapper_wd`), it is the datagram that was authenticated -/
 theorem deliver_wd_is_datagram (E : Env P) (prog : List Op) (hg : guarded prog = true) (data k w : Bytes) (p : P)
@@ -126,42 +111,83 @@ theorem deliver_wd_is_datagram (E : Env P) (prog : List Op) (hg : guarded prog =
   · cases hw
   · exact Option.some.inj hw
 
-/-- `Delivered` implies the specification's `Authentic` predicate -/
-theorem delivered_authentic (E : Env P) (data k : Bytes) (p : P) (h : Delivered E data k p) :
-    Authentic E.S E.strict data k := by
+/-- `DeliveredBy` implies the specification's `Authentic` predicate -/
+theorem delivered_authentic (E : Env P) (dec : Bytes → Nat → Option P) (data k : Bytes) (p : P)
+    (h : DeliveredBy E dec data k p) : Authentic E.S E.strict data k := by
   obtain ⟨kb, signed, sg, h1, h2, h3, h4, h5, _, _⟩ := h
   exact ⟨kb, signed, sg, h1, h2, h3, h4, h5⟩
 
-/-! ### tampering -/
+/-- **touch_only_after_authentication** — the wrappers' side effect on receiver state that does not wait for the
+    handler: `if peer: peer.add_address(source_address)` on the STORED verified Peer.  For every guarded program —
+    whatever the final outcome, exception included — the Peer of key `k` is touched only by a datagram that is
+    authentic for `k`.  (A wrapper that moves the lookup + `add_address` in front of `if not signature_valid: raise`
+    is not `guarded`: example below.) -/
+theorem touch_only_after_authentication (E : Env P) (hv : E.verifySig = Gen.verifySignature) (hS : WellSized E.S)
+    (hN : NetOK E.S E.net) (prog : List Op) (hg : guarded prog = true) (data k : Bytes)
+    (h : touchedBy E prog data = some k) : Authentic E.S E.strict data k := by
+  obtain ⟨kb, e, rem, hu, hver, hnet⟩ := touchedBy_guarded hg h
+  have hpk := hN kb k hnet
+  obtain ⟨signed, sg, hkf, hsplit, hsl, hvf, _, _⟩ := checked_core hv hS hu hver hpk
+  exact ⟨kb, signed, sg, hkf, hpk, hsplit, hsl, hvf⟩
 
-/-- **tamper_rejected** — if the scheme is unforgeable *as a hypothesis* (a verifying signature means the holder of `k`
-    signed exactly these bytes), then a handler call for key `k` means `k`'s holder signed exactly the bytes that precede
-    the signature: prefix, message id, key field and every payload byte.  Hence a flipped bit anywhere before the
-    signature, a truncation, an extension, a substituted key, a foreign signature, a spliced payload, a swapped prefix or
-    message id is delivered only if those exact bytes were signed by that key. -/
+/-! ### tampering: unforgeability as a hypothesis, then the mutation operators one by one -/
+
+/-- **tamper_rejected** — let `msgs` be everything the holder of `k` ever signed (`OnlySigned`: nothing else verifies
+    under `k`).  A handler call for key `k` means the bytes that precede the signature — prefix, message id, key field,
+    every payload byte — are literally one of those messages.  (This is `deliver_sound` plus one use of the hypothesis;
+    its content is the operator corollaries below.) -/
 theorem tamper_rejected (E : Env P) (hv : E.verifySig = Gen.verifySignature) (hS : WellSized E.S)
-    (hN : NetOK E.S E.net) (SignedBy : Bytes → Bytes → Prop)
-    (hU : ∀ k m s, E.S.verify k m s = true → SignedBy k m)
+    (hN : NetOK E.S E.net) (k : Bytes) (msgs : List Bytes) (hU : OnlySigned E.S k msgs)
     (prog : List Op) (hg : guarded prog = true)
-    (data k : Bytes) (p : P) (wd : Option Bytes) (h : run E prog data = .called k p wd) :
-    SignedBy k (data.take (data.length - E.S.sigLen k)) ∧ 23 ≤ data.length - E.S.sigLen k := by
+    (data : Bytes) (p : P) (wd : Option Bytes) (h : run E prog data = .called k p wd) :
+    data.take (data.length - E.S.sigLen k) ∈ msgs ∧ 23 ≤ data.length - E.S.sigLen k ∧
+      E.S.sigLen k ≤ data.length := by
   obtain ⟨kb, signed, sg, _, _, hsplit, hsl, hver, h23, _⟩ := deliver_sound E hv hS hN prog hg data k p wd h
   have hlen : data.length = signed.length + sg.length := by rw [hsplit]; simp
   have : data.take (data.length - E.S.sigLen k) = signed := by
     rw [hlen, hsl, Nat.add_sub_cancel, hsplit]
     simp
   rw [this]
-  exact ⟨hU k signed sg hver, by omega⟩
+  exact ⟨hU signed sg hver, by omega, by omega⟩
 
-/-- contrapositive, in the form used for mutants: a datagram whose signed part the holder of `k` never signed is not
-    delivered as coming from `k`, whatever else the attacker controls -/
-theorem mutant_not_delivered (E : Env P) (hv : E.verifySig = Gen.verifySignature) (hS : WellSized E.S)
-    (hN : NetOK E.S E.net) (SignedBy : Bytes → Bytes → Prop)
-    (hU : ∀ k m s, E.S.verify k m s = true → SignedBy k m)
-    (prog : List Op) (hg : guarded prog = true)
-    (data k : Bytes) (hno : ¬ SignedBy k (data.take (data.length - E.S.sigLen k))) (p : P) (wd : Option Bytes) :
-    run E prog data ≠ .called k p wd := fun h =>
-  hno (tamper_rejected E hv hS hN SignedBy hU prog hg data k p wd h).1
+/-- **bit flip anywhere before the signature**: if the holder of `k` signed only the signed part of `d`, then `d` with
+    any byte before the signature replaced by a different value is never delivered as `k` -/
+theorem bitflip_rejected (E : Env P) (hv : E.verifySig = Gen.verifySignature) (hS : WellSized E.S)
+    (hN : NetOK E.S E.net) (k d : Bytes) (hU : OnlySigned E.S k [d.take (d.length - E.S.sigLen k)])
+    (prog : List Op) (hg : guarded prog = true) (i : Nat) (b : UInt8) (hi : i < d.length - E.S.sigLen k)
+    (hb : d[i]? ≠ some b) (p : P) (wd : Option Bytes) : run E prog (d.set i b) ≠ .called k p wd := by
+  intro h
+  obtain ⟨hm, _, _⟩ := tamper_rejected E hv hS hN k _ hU prog hg _ p wd h
+  simp only [List.length_set, List.mem_singleton] at hm
+  have := congrArg (fun l => l[i]?) hm
+  simp only [List.getElem?_take, hi, if_true] at this
+  rw [List.getElem?_set_self (by omega)] at this
+  exact hb this.symm
+
+/-- **truncation**: cutting `c > 0` bytes off the end of `d` -/
+theorem truncation_rejected (E : Env P) (hv : E.verifySig = Gen.verifySignature) (hS : WellSized E.S)
+    (hN : NetOK E.S E.net) (k d : Bytes) (hU : OnlySigned E.S k [d.take (d.length - E.S.sigLen k)])
+    (prog : List Op) (hg : guarded prog = true) (c : Nat) (hc : 0 < c) (p : P) (wd : Option Bytes) :
+    run E prog (d.take (d.length - c)) ≠ .called k p wd := by
+  intro h
+  obtain ⟨hm, h23, hn⟩ := tamper_rejected E hv hS hN k _ hU prog hg _ p wd h
+  simp only [List.mem_singleton] at hm
+  have := congrArg List.length hm
+  simp only [List.length_take] at this h23 hn
+  omega
+
+/-- **extension**: appending any non-empty bytes to `d` -/
+theorem extension_rejected (E : Env P) (hv : E.verifySig = Gen.verifySignature) (hS : WellSized E.S)
+    (hN : NetOK E.S E.net) (k d : Bytes) (hU : OnlySigned E.S k [d.take (d.length - E.S.sigLen k)])
+    (prog : List Op) (hg : guarded prog = true) (ext : Bytes) (he : ext ≠ []) (p : P) (wd : Option Bytes) :
+    run E prog (d ++ ext) ≠ .called k p wd := by
+  intro h
+  obtain ⟨hm, h23, hn⟩ := tamper_rejected E hv hS hN k _ hU prog hg _ p wd h
+  simp only [List.mem_singleton] at hm
+  have := congrArg List.length hm
+  have hel : 0 < ext.length := List.length_pos_iff.mpr he
+  simp only [List.length_take, List.length_append] at this h23 hn
+  omega
 
 /-- a wrapper program without a Peer-call statement — in particular the unsigned wrappers as translated — never hands
     a `Peer` to a handler -/
@@ -169,105 +195,40 @@ theorem unsigned_never_yields_peer (E : Env P) (prog : List Op) (hn : noPeerCall
     (wd : Option Bytes) : run E prog data ≠ .called k p wd :=
   runFrom_noPeerCall prog {} hn
 
-/-! ### dispatch -/
-
-/-- the environments of all handlers share the scheme / strictness / generated signature check -/
-structure EnvsOK (S : Scheme) (strict : Bool) (envOf : Handler → Env P) : Prop where
-  scheme : ∀ h, (envOf h).S = S
-  strict : ∀ h, (envOf h).strict = strict
-  vsig : ∀ h, (envOf h).verifySig = Gen.verifySignature
-
-/-- **onPacket_sound** — through `Community.on_packet` of any overlay (any handler table, any guarded wrapper
-    programs — `Gen.progs` by `gen_wrappers_guarded`), a handler is entered with
-    a `Peer` only for a datagram that carries this overlay's prefix, whose msg id selects that handler, that was
-    registered with a signing wrapper, and that is `Delivered` (authentic, peer = carried key, payloads signed) -/
-theorem onPacket_sound (G : Progs) (hG : GuardedProgs G) (S : Scheme) (strict : Bool) (hS : WellSized S) (o : Overlay)
-    (envOf : Handler → Env P) (hE : EnvsOK S strict envOf) (hN : ∀ h, NetOK S (envOf h).net) (data k : Bytes)
-    (hd : Handler) (p : P) (wd : Option Bytes)
-    (h : onPacket G o envOf Gen.prefixLen Gen.msgIdOffset data = .handler hd (.called k p wd)) :
-    data.take 22 = o.pfx ∧ (∃ m, data[22]? = some m ∧ o.find m.toNat = some hd) ∧
-      hd.kind.authenticating = true ∧ Delivered (envOf hd) data k p := by
-  obtain ⟨hpfx, m, hm, hf, hk⟩ := onPacket_called h
-  refine ⟨hpfx, ⟨m, hm, hf⟩, ?_⟩
-  have hWS : WellSized (envOf hd).S := by rw [hE.scheme hd]; exact hS
-  have hNN : NetOK (envOf hd).S (envOf hd).net := by rw [hE.scheme hd]; exact hN hd
-  rcases hk with ⟨hk, hr⟩ | ⟨hk, hr⟩ | ⟨hk, hr⟩ | ⟨hk, hr⟩
-  · exact ⟨by simp [hk, Kind.authenticating],
-      deliver_sound (envOf hd) (hE.vsig hd) hWS hNN _ hG.signed data k p wd hr⟩
-  · exact ⟨by simp [hk, Kind.authenticating],
-      deliver_sound (envOf hd) (hE.vsig hd) hWS hNN _ hG.signedWd data k p wd hr⟩
-  · exact absurd hr (unsigned_never_yields_peer (envOf hd) _ hG.unsigned data k p wd)
-  · exact absurd hr (unsigned_never_yields_peer (envOf hd) _ hG.unsignedWd data k p wd)
-
-/-- replay into another overlay / prefix mismatch: nothing runs — for every environment, i.e. whatever the receiver
-    already believes about the source address (`Env.netAddr`: some verified peer may sit there) or about the key -/
-theorem cross_overlay_replay_dropped (G : Progs) (o : Overlay) (envOf : Handler → Env P) (data : Bytes)
-    (hpfx : data.take 22 ≠ o.pfx) : onPacket G o envOf 22 22 data = .droppedPrefix := by
-  simp [onPacket, hpfx]
-
-/-- prefix swap / msg-id swap under unforgeability: a delivery in overlay `o` for key `k` under msg id `m` means the
-    holder of `k` signed bytes that start with `o`'s prefix followed by `m` -/
-theorem signed_bytes_name_overlay_and_message (G : Progs) (hG : GuardedProgs G) (S : Scheme) (strict : Bool)
-    (hS : WellSized S) (o : Overlay)
-    (envOf : Handler → Env P) (hE : EnvsOK S strict envOf) (hN : ∀ h, NetOK S (envOf h).net)
-    (SignedBy : Bytes → Bytes → Prop) (hU : ∀ k m s, S.verify k m s = true → SignedBy k m)
-    (data k : Bytes) (hd : Handler) (p : P) (wd : Option Bytes)
-    (h : onPacket G o envOf Gen.prefixLen Gen.msgIdOffset data = .handler hd (.called k p wd)) :
-    ∃ signed m, SignedBy k signed ∧ signed.take 22 = o.pfx ∧ signed[22]? = some m ∧ hd.msgId = m.toNat := by
-  obtain ⟨hpfx, ⟨m, hm, hf⟩, _, kb, signed, sg, _, _, hsplit, _, hver, h23, _⟩ :=
-    onPacket_sound G hG S strict hS o envOf hE hN data k hd p wd h
-  rw [hE.scheme hd] at hver
-  refine ⟨signed, m, hU k signed sg hver, ?_, ?_, ?_⟩
-  · rw [← hpfx, hsplit, List.take_append_of_le_length (by omega)]
-  · rw [hsplit, List.getElem?_append_left (by omega)] at hm
-    exact hm
-  · have := List.find?_some hf
-    simp at this
-    exact this
-
 /-! ### the raw discovery handler -/
 
 /-- `DiscoveryCommunity.on_old_introduction_request` (two `_ez_unpack_auth` attempts, then
-    `Peer(auth.public_key_bin, …)` and `add_verified_peer`): accepted only for an authentic datagram, whichever of
-    the two payload formats decoded — for every guarded `_ez_unpack_auth` body (the translated one by
-    `gen_wrappers_guarded`) and whether or not decode errors are caught -/
+    `Peer(auth.public_key_bin, …)` and `add_verified_peer`): accepted only for an authentic datagram whose payloads
+    were decoded — by the first or the second format — from the signed remainder; for every guarded `_ez_unpack_auth`
+    body (the translated one by `gen_wrappers_guarded`) and whether or not decode errors are caught -/
 theorem discRaw_sound (prog : List Op) (hg : guarded prog = true) (hnp : noPeerCall prog = true) (catches : Bool)
-    (E1 E2 : Env P) (hS12 : E2.S = E1.S) (hst : E2.strict = E1.strict)
-    (hv1 : E1.verifySig = Gen.verifySignature) (hv2 : E2.verifySig = Gen.verifySignature) (hS : WellSized E1.S)
+    (E : Env P) (hv : E.verifySig = Gen.verifySignature) (hS : WellSized E.S)
     (data k : Bytes) (p : P) (wd : Option Bytes)
-    (h : discRaw E1 E2 prog catches data = .called k p wd) :
-    Authentic E1.S E1.strict data k := by
-  have key : ∀ (E : Env P), E.S = E1.S → E.strict = E1.strict → E.verifySig = Gen.verifySignature →
-      ∀ kb p', run E prog data = .returned kb p' → E1.S.parse kb = some k →
-        Authentic E1.S E1.strict data k := by
-    intro E hES hEst hEv kb p' hr hpk
-    obtain ⟨e, rem, hu, hver, _⟩ := run_guarded_returned hg hr
-    rw [hEv, gen_verifySignature_is_reference] at hver
-    unfold refVerifySignature at hver
-    rw [hES, hpk] at hver
-    simp only [Option.some.injEq, Prod.mk.injEq] at hver
-    have hkf : keyField E1.strict data = some kb := by simp [keyField, ← hEst, hu]
-    have hpos := hS.pos kb k hpk
-    have hle := hS.le kb k hpk
-    have hlen := keyField_length hkf
-    have hn : E1.S.sigLen k ≤ data.length := by omega
-    rw [slice_signed _ _ hpos, slice_sig _ _ hpos] at hver
-    obtain ⟨hsplit, hsl⟩ := split_at_sig data (E1.S.sigLen k) hn
-    exact ⟨kb, _, _, hkf, hpk, hsplit, hsl, hver.1⟩
-  have nocall : ∀ (E : Env P) a b c, run E prog data ≠ .called a b c := fun E a b c =>
+    (h : discRaw E prog catches data = .called k p wd) :
+    DeliveredBy E E.decode data k p ∨ DeliveredBy E E.decodeAlt data k p := by
+  have key : ∀ (E' : Env P), E'.S = E.S → E'.strict = E.strict → E'.verifySig = Gen.verifySignature →
+      ∀ kb p', run E' prog data = .returned kb p' → E.S.parse kb = some k → DeliveredBy E E'.decode data k p' := by
+    intro E' hES hEst hEv kb p' hr hpk
+    obtain ⟨e, rem, hu, hver, hdec⟩ := run_guarded_returned hg hr
+    rw [hEst] at hu
+    rw [hES, hEv, ← hv] at hver
+    obtain ⟨signed, sg, hkf, hsplit, hsl, hvf, h23, hrem⟩ := checked_core hv hS hu hver hpk
+    exact ⟨kb, signed, sg, hkf, hpk, hsplit, hsl, hvf, h23, by rw [← hrem]; exact hdec⟩
+  have nocall : ∀ (E' : Env P) a b c, run E' prog data ≠ .called a b c := fun E' a b c =>
     runFrom_noPeerCall prog {} hnp
   unfold discRaw at h
   simp only [newPeerKey] at h
-  -- first attempt
-  cases h1 : run E1 prog data with
+  cases h1 : run E prog data with
   | returned kb p' =>
     simp only [h1] at h
-    cases hpk : E1.S.parse kb with
+    cases hpk : E.S.parse kb with
     | none => simp [hpk] at h
     | some k' =>
       simp [hpk] at h
-      exact key E1 rfl rfl hv1 kb p' h1 (by rw [hpk, h.1])
-  | called a b c => exact absurd h1 (nocall E1 a b c)
+      obtain ⟨hk, hp, _⟩ := h
+      subst hk hp
+      exact Or.inl (key E rfl rfl hv kb p' h1 hpk)
+  | called a b c => exact absurd h1 (nocall E a b c)
   | calledAddr a b => simp [h1] at h
   | stuck => simp [h1] at h
   | rejected st =>
@@ -279,46 +240,121 @@ theorem discRaw_sound (prog : List Op) (hg : guarded prog = true) (hnp : noPeerC
       | false => simp at h
       | true =>
         simp only [if_true] at h
-        cases h2 : run E2 prog data with
+        cases h2 : run { E with decode := E.decodeAlt } prog data with
         | returned kb p' =>
           simp only [h2] at h
-          cases hpk : E1.S.parse kb with
+          cases hpk : E.S.parse kb with
           | none => simp [hpk] at h
           | some k' =>
             simp [hpk] at h
-            exact key E2 hS12 hst hv2 kb p' h2 (by rw [hpk, h.1])
-        | called a b c => exact absurd h2 (nocall E2 a b c)
+            obtain ⟨hk, hp, _⟩ := h
+            subst hk hp
+            exact Or.inr (key { E with decode := E.decodeAlt } rfl rfl hv kb p' h2 hpk)
+        | called a b c => exact absurd h2 (nocall _ a b c)
         | calledAddr a b => simp [h2] at h
         | stuck => simp [h2] at h
         | rejected st2 => simp [h2] at h
 
+/-! ### dispatch -/
+
+/-- the environments of all handlers share the scheme / strictness / generated signature check -/
+structure EnvsOK (S : Scheme) (strict : Bool) (envOf : Handler → Env P) : Prop where
+  scheme : ∀ h, (envOf h).S = S
+  strict : ∀ h, (envOf h).strict = strict
+  vsig : ∀ h, (envOf h).verifySig = Gen.verifySignature
+
+/-- **onPacket_sound** — through `Community.on_packet` of any overlay (any handler table, any guarded wrapper
+    programs — `Gen.progs` by `gen_wrappers_guarded`), a handler is entered with a `Peer` — by a signing wrapper or by
+    the reviewed raw handler, which is part of `onPacket` — only for a datagram that carries this overlay's prefix,
+    whose msg id selects that handler, and that is delivered authentically (peer = carried key, payloads signed) -/
+theorem onPacket_sound (G : Progs) (hG : GuardedProgs G) (S : Scheme) (strict : Bool) (hS : WellSized S) (o : Overlay)
+    (envOf : Handler → Env P) (hE : EnvsOK S strict envOf) (hN : ∀ h, NetOK S (envOf h).net) (data k : Bytes)
+    (hd : Handler) (p : P) (wd : Option Bytes)
+    (h : onPacket G o envOf Gen.prefixLen Gen.msgIdOffset data = .handler hd (.called k p wd)) :
+    data.take Gen.prefixLen = o.pfx ∧ (∃ m, data[Gen.msgIdOffset]? = some m ∧ o.find m.toNat = some hd) ∧
+      (hd.kind.authenticating = true ∨ hd.kind = .raw) ∧
+      (DeliveredBy (envOf hd) (envOf hd).decode data k p ∨ DeliveredBy (envOf hd) (envOf hd).decodeAlt data k p) := by
+  obtain ⟨hpfx, m, hm, hf, hk⟩ := onPacket_called h
+  refine ⟨hpfx, ⟨m, hm, hf⟩, ?_⟩
+  have hWS : WellSized (envOf hd).S := by rw [hE.scheme hd]; exact hS
+  have hNN : NetOK (envOf hd).S (envOf hd).net := by rw [hE.scheme hd]; exact hN hd
+  rcases hk with ⟨hk, hr⟩ | ⟨hk, hr⟩ | ⟨hk, hr⟩ | ⟨hk, hr⟩ | ⟨hk, hr⟩
+  · exact ⟨Or.inl (by simp [hk, Kind.authenticating]),
+      Or.inl (deliver_sound (envOf hd) (hE.vsig hd) hWS hNN _ hG.signed data k p wd hr)⟩
+  · exact ⟨Or.inl (by simp [hk, Kind.authenticating]),
+      Or.inl (deliver_sound (envOf hd) (hE.vsig hd) hWS hNN _ hG.signedWd data k p wd hr)⟩
+  · exact absurd hr (unsigned_never_yields_peer (envOf hd) _ hG.unsigned data k p wd)
+  · exact absurd hr (unsigned_never_yields_peer (envOf hd) _ hG.unsignedWd data k p wd)
+  · exact ⟨Or.inr hk,
+      discRaw_sound _ hG.ezUnpackAuth hG.ezUnpackAuthNoPeer _ (envOf hd) (hE.vsig hd) hWS data k p wd hr⟩
+
+/-- tripwire (first line of the hand-written `onPacket`, with the generated offsets): prefix mismatch ⇒ nothing runs,
+    for every environment, i.e. whatever the receiver believes about the source address or the key -/
+theorem cross_overlay_replay_dropped (G : Progs) (o : Overlay) (envOf : Handler → Env P) (data : Bytes)
+    (hpfx : data.take Gen.prefixLen ≠ o.pfx) :
+    onPacket G o envOf Gen.prefixLen Gen.msgIdOffset data = .droppedPrefix := by
+  simp [onPacket, hpfx]
+
+/-- **prefix swap / msg-id swap**: if everything the holder of `k` ever signed starts with prefix `pfx` and message id
+    `mid`, then no overlay with another prefix, and no handler registered under another id, is entered as `k` -/
+theorem prefix_or_msgid_swap_rejected (G : Progs) (hG : GuardedProgs G) (S : Scheme) (strict : Bool)
+    (hS : WellSized S) (o : Overlay)
+    (envOf : Handler → Env P) (hE : EnvsOK S strict envOf) (hN : ∀ h, NetOK S (envOf h).net)
+    (k : Bytes) (msgs : List Bytes) (hU : OnlySigned S k msgs) (pfx : Bytes) (mid : UInt8)
+    (hall : ∀ m ∈ msgs, m.take 22 = pfx ∧ m[22]? = some mid)
+    (data : Bytes) (hd : Handler) (p : P) (wd : Option Bytes)
+    (h : onPacket G o envOf Gen.prefixLen Gen.msgIdOffset data = .handler hd (.called k p wd)) :
+    o.pfx = pfx ∧ hd.msgId = mid.toNat := by
+  obtain ⟨hpfx, ⟨m, hm, hf⟩, _, hdel⟩ := onPacket_sound G hG S strict hS o envOf hE hN data k hd p wd h
+  have hcore : ∃ signed sg, data = signed ++ sg ∧ (envOf hd).S.verify k signed sg = true ∧ 23 ≤ signed.length := by
+    rcases hdel with ⟨_, signed, sg, _, _, h3, _, h5, h6, _⟩ | ⟨_, signed, sg, _, _, h3, _, h5, h6, _⟩
+    · exact ⟨signed, sg, h3, h5, h6⟩
+    · exact ⟨signed, sg, h3, h5, h6⟩
+  obtain ⟨signed, sg, hsplit, hver, h23⟩ := hcore
+  rw [hE.scheme hd] at hver
+  obtain ⟨h1, h2⟩ := hall signed (hU signed sg hver)
+  have hp22 : data.take 22 = signed.take 22 := by
+    rw [hsplit, List.take_append_of_le_length (by omega)]
+  have hm22 : data[22]? = signed[22]? := by
+    rw [hsplit, List.getElem?_append_left (by omega)]
+  constructor
+  · have : data.take 22 = o.pfx := hpfx
+    rw [← this, hp22, h1]
+  · have hm' : data[22]? = some m := hm
+    rw [hm22, h2] at hm'
+    have hmm : mid = m := Option.some.inj hm'
+    have := List.find?_some hf
+    simp at this
+    rw [this, hmm]
+
 /-! ### histories: who can end up in verified_peers -/
 
-/-- **history_sound** — start from any node whose verified keys are canonical; feed it ANY finite history of
-    datagrams (any bytes, any order, any number); let ANY subset of handlers add the peer they were handed.  Then every
-    key in `verified` at the end was there at the start or is authenticated by some datagram of the history that
-    carries this overlay's prefix. -/
+/-- **history_sound** — ONE key index shared by any number of overlays (one `Network` per IPv8 instance).  Start from
+    any node whose verified keys are canonical; feed it ANY finite history of (overlay, datagram) deliveries (any bytes,
+    any order, any number); let ANY subset of handlers — the reviewed raw handler included — add the Peer they were
+    handed.  Then every key in `verified` at the end was there at the start or is authenticated by some datagram of the
+    history that carries the prefix of the overlay it was delivered to.
+    MODELLING ASSUMPTION (not derived from the code): handlers add no other key than the Peer they were handed. -/
 theorem history_sound (G : Progs) (hG : GuardedProgs G) (S : Scheme) (strict : Bool) (hS : WellSized S)
-    (hC : Canon S) (o : Overlay)
-    (envOf : Handler → Env P) (hE : EnvsOK S strict envOf) (adds : Handler → Bool) (hist : List Bytes) :
+    (hC : Canon S) (envOf : Handler → Env P) (hE : EnvsOK S strict envOf) (adds : Handler → Bool)
+    (hist : List (Overlay × Bytes)) :
     ∀ (n0 : Node), (∀ kb ∈ n0.verified, S.parse kb = some kb) →
-    ∀ k ∈ (Node.runHistory G o envOf adds n0 hist).verified,
-      k ∈ n0.verified ∨ ∃ d ∈ hist, Authentic S strict d k ∧ d.take 22 = o.pfx := by
+    ∀ k ∈ (Node.runHistory G envOf adds n0 hist).verified,
+      k ∈ n0.verified ∨ ∃ od ∈ hist, Authentic S strict od.2 k ∧ od.2.take 22 = od.1.pfx := by
   induction hist with
   | nil => intro n0 _ k hk; exact Or.inl hk
-  | cons d ds ih =>
+  | cons od ds ih =>
+    obtain ⟨o, d⟩ := od
     intro n0 h0 k hk
     simp only [Node.runHistory] at hk
-    -- one step
-    have hstep : (∀ kb ∈ (Node.recv G o envOf adds n0 d).verified, S.parse kb = some kb) ∧
-        ∀ k' ∈ (Node.recv G o envOf adds n0 d).verified,
+    have hstep : (∀ kb ∈ (Node.recv G envOf adds n0 o d).verified, S.parse kb = some kb) ∧
+        ∀ k' ∈ (Node.recv G envOf adds n0 o d).verified,
           k' ∈ n0.verified ∨ (Authentic S strict d k' ∧ d.take 22 = o.pfx) := by
       unfold Node.recv
       split
       · rename_i hd' k' p' wd' hop
         split
-        · -- the handler adds the peer it was handed
-          have hE' : EnvsOK S strict (fun h => { envOf h with net := n0.net }) :=
+        · have hE' : EnvsOK S strict (fun h => { envOf h with net := n0.net }) :=
             ⟨fun h => hE.scheme h, fun h => hE.strict h, fun h => hE.vsig h⟩
           have hN' : ∀ h, NetOK S ({ envOf h with net := n0.net } : Env P).net := by
             intro h kb k'' hnet
@@ -329,11 +365,13 @@ theorem history_sound (G : Progs) (hG : GuardedProgs G) (S : Scheme) (strict : B
               exact h0 kb hmem
             · cases hnet
           obtain ⟨hpfx, _, _, hdel⟩ := onPacket_sound G hG S strict hS o _ hE' hN' d k' hd' p' wd' hop
-          have hauth := delivered_authentic _ d k' p' hdel
-          simp only [hE.scheme hd', hE.strict hd'] at hauth
+          have hauth : Authentic S strict d k' := by
+            rcases hdel with hdel | hdel
+            · have := delivered_authentic _ _ d k' p' hdel
+              simpa only [hE.scheme hd', hE.strict hd'] using this
+            · have := delivered_authentic _ _ d k' p' hdel
+              simpa only [hE.scheme hd', hE.strict hd'] using this
           obtain ⟨kb, _, _, _, hpk, _⟩ := hauth
-          have hauth' := delivered_authentic _ d k' p' hdel
-          simp only [hE.scheme hd', hE.strict hd'] at hauth'
           refine ⟨?_, ?_⟩
           · intro kb' hm
             simp only [List.mem_cons] at hm
@@ -343,90 +381,67 @@ theorem history_sound (G : Progs) (hG : GuardedProgs G) (S : Scheme) (strict : B
           · intro k'' hm
             simp only [List.mem_cons] at hm
             rcases hm with rfl | hm
-            · exact Or.inr ⟨hauth', hpfx⟩
+            · exact Or.inr ⟨by
+                rcases hdel with hdel | hdel
+                · have := delivered_authentic _ _ d k'' p' hdel
+                  simpa only [hE.scheme hd', hE.strict hd'] using this
+                · have := delivered_authentic _ _ d k'' p' hdel
+                  simpa only [hE.scheme hd', hE.strict hd'] using this, hpfx⟩
             · exact Or.inl hm
         · exact ⟨h0, fun k' hm => Or.inl hm⟩
       · exact ⟨h0, fun k' hm => Or.inl hm⟩
-    rcases ih _ hstep.1 k hk with hin | ⟨d', hd', hA⟩
+    rcases ih _ hstep.1 k hk with hin | ⟨od', hd', hA⟩
     · rcases hstep.2 k hin with h1 | h1
       · exact Or.inl h1
-      · exact Or.inr ⟨d, List.mem_cons_self, h1⟩
-    · exact Or.inr ⟨d', List.mem_cons_of_mem _ hd', hA⟩
+      · exact Or.inr ⟨(o, d), List.mem_cons_self, h1⟩
+    · exact Or.inr ⟨od', List.mem_cons_of_mem _ hd', hA⟩
 
 /-! ### completeness: honest datagrams are delivered (the model does not reject everything) -/
 
-/-- laws of an honest signer (hypotheses; instance: `toySigner` below) -/
-structure Honest (S : Signer) : Prop where
-  parse_pub : ∀ sk, S.parse (S.pub sk) = some (S.pub sk)
-  sign_len : ∀ sk m, (S.sign sk m).length = S.sigLen (S.pub sk)
-  sign_verifies : ∀ sk m, S.verify (S.pub sk) m (S.sign sk m) = true
-  sig_pos : ∀ sk, 0 < S.sigLen (S.pub sk)
-  pub_short : ∀ sk, (S.pub sk).length < 65536
-
-/-- **deliver_complete** — whatever `ezr_pack(msg, payloads, sig=True)` (as translated) produces for any prefix of 22
-    bytes, any message id, any payload bytes that the handler's decoder accepts and any key of an honest signer, the
-    signed wrapper (as translated) enters the handler with exactly that key and those payloads -/
+/-- **deliver_complete** — whatever `ezr_pack(msg, payloads, sig=True)` produces for any prefix of 22 bytes, any
+    message id, any payload bytes that the handler's decoder accepts and any key of an honest signer, the translated
+    `lazy_wrapper` enters the handler with exactly that key and those payloads -/
 theorem deliver_complete (S : Signer) (hH : Honest S) (E : Env P) (hES : E.S = S.toScheme)
     (hv : E.verifySig = Gen.verifySignature) (sk : S.SK) (pfx : Bytes) (hpfx : pfx.length = 22) (m : UInt8)
     (body : Bytes) (p : P) (hdec : ∀ buf, buf.drop 23 = body → E.decode buf 23 = some p)
     (hnet : E.net (S.pub sk) = none ∨ E.net (S.pub sk) = some (S.pub sk)) :
     run E Gen.lazyWrapper (Gen.ezrPack S sk pfx m body true) = .called (S.pub sk) p none := by
-  -- name the pieces
-  have hl := hH.pub_short sk
-  let pub := S.pub sk
-  let packet : Bytes := pfx ++ [m] ++ (packVarlenH pub ++ body)
-  let sg := S.sign sk packet
-  have hdata : Gen.ezrPack S sk pfx m body true = packet ++ sg := by
-    simp [Gen.ezrPack, Gen.ezPack, packet, sg, pub]
-  rw [hdata]
-  have hn : sg.length = S.sigLen pub := hH.sign_len sk packet
-  have hpos : 0 < S.sigLen pub := hH.sig_pos sk
-  -- (a) the key field
-  have hdrop : (packet ++ sg).drop 23 =
-      UInt8.ofNat (pub.length / 256) :: UInt8.ofNat (pub.length % 256) :: (pub ++ body ++ sg) := by
-    have h23 : (pfx ++ [m]).length = 23 := by simp [hpfx]
-    have : packet ++ sg = (pfx ++ [m]) ++ (packVarlenH pub ++ body ++ sg) := by simp [packet]
-    rw [this, List.drop_left' h23]
-    simp [packVarlenH]
-  have hU : unpackVarlenH E.strict (packet ++ sg) 23 = some (pub, 23 + 2 + pub.length) := by
-    unfold unpackVarlenH
-    rw [hdrop]
-    have hb : be16 (UInt8.ofNat (pub.length / 256)) (UInt8.ofNat (pub.length % 256)) = pub.length :=
-      be16_pack _ hl
-    simp [hb]
-  -- (b) the signature check
-  have hlen : (packet ++ sg).length - S.sigLen pub = packet.length := by simp [hn]
-  have hV : E.verifySig E.S pub (packet ++ sg) = some (true, packet.drop (2 + pub.length)) := by
-    rw [hv, gen_verifySignature_is_reference, hES]
-    unfold refVerifySignature
-    have hp : S.toScheme.parse pub = some pub := hH.parse_pub sk
-    simp only [hp]
-    have e1 : S.toScheme.sigLen pub = S.sigLen pub := rfl
-    rw [e1, slice_signed _ _ hpos, slice_sig _ _ hpos, slice_remainder _ _ _ hpos, hlen]
-    simp only [List.take_left', List.drop_left']
-    have : S.toScheme.verify pub packet sg = true := hH.sign_verifies sk packet
-    simp [this]
-  -- (c) the payload decoder sees exactly `body` at offset 23 of the remainder
-  have hD : E.decode (packet.drop (2 + pub.length)) 23 = some p := by
-    apply hdec
-    rw [List.drop_drop]
-    have h25 : (pfx ++ [m] ++ packVarlenH pub).length = 2 + pub.length + 23 := by
-      simp [hpfx, packVarlenH]; omega
-    have : packet = (pfx ++ [m] ++ packVarlenH pub) ++ body := by simp [packet]
-    rw [this, List.drop_left' h25]
-  -- run the program
-  simp only [run, Gen.lazyWrapper, runFrom, step, hU, hV, hD, newPeerKey]
-  have hp : E.S.parse pub = some pub := by rw [hES]; exact hH.parse_pub sk
+  obtain ⟨rem, hU, hV, hD, hp⟩ := honest_facts S hH E hES hv sk pfx hpfx m body
+  have hD' := hdec rem hD
+  simp only [run, Gen.lazyWrapper, runFrom, step, hU, hV, hD', newPeerKey]
   rcases hnet with hnone | hsome
-  · simp [pub] at hnone hp ⊢
-    simp [hnone, hp]
-  · simp [pub] at hsome ⊢
-    simp [hsome]
+  · simp [hnone, hp]
+  · simp [hsome]
+
+/-- the same for `lazy_wrapper_wd`: the handler also receives exactly the datagram -/
+theorem deliver_complete_wd (S : Signer) (hH : Honest S) (E : Env P) (hES : E.S = S.toScheme)
+    (hv : E.verifySig = Gen.verifySignature) (sk : S.SK) (pfx : Bytes) (hpfx : pfx.length = 22) (m : UInt8)
+    (body : Bytes) (p : P) (hdec : ∀ buf, buf.drop 23 = body → E.decode buf 23 = some p)
+    (hnet : E.net (S.pub sk) = none ∨ E.net (S.pub sk) = some (S.pub sk)) :
+    run E Gen.lazyWrapperWd (Gen.ezrPack S sk pfx m body true)
+      = .called (S.pub sk) p (some (Gen.ezrPack S sk pfx m body true)) := by
+  obtain ⟨rem, hU, hV, hD, hp⟩ := honest_facts S hH E hES hv sk pfx hpfx m body
+  have hD' := hdec rem hD
+  simp only [run, Gen.lazyWrapperWd, runFrom, step, hU, hV, hD', newPeerKey]
+  rcases hnet with hnone | hsome
+  · simp [hnone, hp]
+  · simp [hsome]
+
+/-- and for the reviewed raw handler (first payload format) -/
+theorem deliver_complete_raw (S : Signer) (hH : Honest S) (E : Env P) (hES : E.S = S.toScheme)
+    (hv : E.verifySig = Gen.verifySignature) (sk : S.SK) (pfx : Bytes) (hpfx : pfx.length = 22) (m : UInt8)
+    (body : Bytes) (p : P) (hdec : ∀ buf, buf.drop 23 = body → E.decode buf 23 = some p) (catches : Bool) :
+    discRaw E Gen.ezUnpackAuth catches (Gen.ezrPack S sk pfx m body true) = .called (S.pub sk) p none := by
+  obtain ⟨rem, hU, hV, hD, hp⟩ := honest_facts S hH E hES hv sk pfx hpfx m body
+  have hD' := hdec rem hD
+  simp only [discRaw, run, Gen.ezUnpackAuth, runFrom, step, hU, hV, hD', newPeerKey]
+  simp [hp]
 
 /-! ### the handler table -/
 
 /-- every (overlay, msg id) that the frozen specification lists as authenticated is registered with a signing wrapper
-    in the live decode_map — or is one of the raw handlers modelled separately (`discRaw_sound`) -/
+    in the live decode_map — or is the reviewed raw handler (kind `raw` is only emitted for ids in the specification's
+    `raw_modelled`; it is dispatched to `discRaw` inside `onPacket`) -/
 theorem handlers_respect_auth_spec :
     ∀ om ∈ Gen.authRequired,
       (match kindOf Gen.overlays om.1 om.2 with
@@ -447,62 +462,111 @@ theorem auth_required_kinds :
   decide
 
 /-- **auth_required_only_authentic** — table and wrappers together: for every shipped overlay (generated table) and
-    every message id that the frozen specification lists as authenticated, whatever datagram arrives, if `on_packet`
-    runs a wrapper for it then the wrapped handler is never entered with a bare address, and if it is entered at all
-    the delivery is authentic, carries this overlay's prefix and the peer is the carried key. -/
+    EVERY message id that the frozen specification lists as authenticated (the raw discovery handler included),
+    whatever datagram arrives: `on_packet` does run a modelled handler for it (never `Dispatch.other`), the handler
+    is never entered with a bare address, and if it is entered at all the delivery is authentic, carries this
+    overlay's prefix and the peer is the carried key. -/
 theorem auth_required_only_authentic (S : Scheme) (strict : Bool) (hS : WellSized S) (o : Overlay)
     (ho : o ∈ Gen.overlays) (envOf : Handler → Env P) (hE : EnvsOK S strict envOf) (hN : ∀ h, NetOK S (envOf h).net)
-    (data : Bytes) (hd : Handler) (out : Outcome P)
-    (hreq : Gen.authRequired.contains (o.name, hd.msgId) = true)
-    (h : onPacket Gen.progs o envOf Gen.prefixLen Gen.msgIdOffset data = .handler hd out) :
-    (∀ p wd, out ≠ .calledAddr p wd) ∧
-    (∀ k p wd, out = .called k p wd → data.take 22 = o.pfx ∧ Delivered (envOf hd) data k p) := by
-  obtain ⟨hmem, hk⟩ := onPacket_handler h
-  have hkind := auth_required_kinds o ho hd hmem hreq
+    (data : Bytes) :
+    (∀ hd, Gen.authRequired.contains (o.name, hd.msgId) = true →
+      onPacket Gen.progs o envOf Gen.prefixLen Gen.msgIdOffset data ≠ .other hd) ∧
+    (∀ hd out, Gen.authRequired.contains (o.name, hd.msgId) = true →
+      onPacket Gen.progs o envOf Gen.prefixLen Gen.msgIdOffset data = .handler hd out →
+      (∀ p wd, out ≠ .calledAddr p wd) ∧
+      (∀ k p wd, out = .called k p wd → data.take 22 = o.pfx ∧
+        (DeliveredBy (envOf hd) (envOf hd).decode data k p ∨ DeliveredBy (envOf hd) (envOf hd).decodeAlt data k p))) := by
   constructor
-  · intro p wd hc
-    rcases hk with ⟨hk, hr⟩ | ⟨hk, hr⟩ | ⟨hk, hr⟩ | ⟨hk, hr⟩
-    · rw [hr] at hc
-      exact runFrom_noAddrCall _ {} gen_wrappers_guarded.signedNoAddr hc
-    · rw [hr] at hc
-      exact runFrom_noAddrCall _ {} gen_wrappers_guarded.signedWdNoAddr hc
-    · simp [hk, Kind.authenticating] at hkind
-    · simp [hk, Kind.authenticating] at hkind
-  · intro k p wd hc
-    subst hc
-    obtain ⟨h1, _, _, h4⟩ := onPacket_sound Gen.progs gen_wrappers_guarded S strict hS o envOf hE hN data k hd p wd h
-    exact ⟨h1, h4⟩
+  · intro hd hreq hoth
+    obtain ⟨hmem, hk⟩ := onPacket_other hoth
+    have hkind := auth_required_kinds o ho hd hmem hreq
+    rcases hk with hk | hk | hk | hk <;> simp [hk, Kind.authenticating] at hkind
+  · intro hd out hreq h
+    obtain ⟨hmem, hk⟩ := onPacket_handler h
+    have hkind := auth_required_kinds o ho hd hmem hreq
+    constructor
+    · intro p wd hc
+      rcases hk with ⟨hk, hr⟩ | ⟨hk, hr⟩ | ⟨hk, hr⟩ | ⟨hk, hr⟩ | ⟨hk, hr⟩
+      · rw [hr] at hc
+        exact runFrom_noAddrCall _ {} gen_wrappers_guarded.signedNoAddr hc
+      · rw [hr] at hc
+        exact runFrom_noAddrCall _ {} gen_wrappers_guarded.signedWdNoAddr hc
+      · simp [hk, Kind.authenticating] at hkind
+      · simp [hk, Kind.authenticating] at hkind
+      · rw [hr] at hc
+        exact discRaw_not_calledAddr (prog := Gen.progs.ezUnpackAuth) (by decide) hc
+    · intro k p wd hc
+      subst hc
+      obtain ⟨h1, _, _, h4⟩ :=
+        onPacket_sound Gen.progs gen_wrappers_guarded S strict hS o envOf hE hN data k hd p wd h
+      exact ⟨h1, h4⟩
 
-/-! ### non-vacuity: a toy scheme satisfies every hypothesis bundle, and concrete datagrams exercise the theorems -/
+/-! ### non-vacuity: toy schemes satisfy every hypothesis bundle, and concrete datagrams exercise the theorems -/
 
 /-- one-byte "signatures": a checksum of key and message (not unforgeable, of course — the structural laws only) -/
 def toyTag (k m : Bytes) : UInt8 := (k ++ m).foldl (· + ·) 7
 
+/-- keys are two bytes; the parser rejects shorter material and IGNORES trailing bytes (like the real one), so the
+    carried key bytes and the canonical key can differ -/
 def toySigner : Signer :=
-  { parse := fun b => some b, sigLen := fun _ => 1, verify := fun k m s => s == [toyTag k m],
+  { parse := fun b => if b.length < 2 then none else some (b.take 2), sigLen := fun _ => 1,
+    verify := fun k m s => s == [toyTag k m],
     SK := UInt8, pub := fun sk => [sk, sk], sign := fun sk m => [toyTag [sk, sk] m] }
 
 def toyEnv : Env Bytes :=
   { S := toySigner.toScheme, strict := Gen.strictVarlen, verifySig := Gen.verifySignature,
     decode := fun buf off => some (buf.drop off), net := fun _ => none }
 
+/-- a receiver that already stores the peer [5,5] -/
+def toyEnvKnown : Env Bytes := { toyEnv with net := fun kb => if kb == [5, 5] then some [5, 5] else none }
+
 example : WellSized toySigner.toScheme :=
   ⟨fun _ _ _ => Nat.one_pos, fun kb _ _ => by simp [toySigner]⟩
-example : Canon toySigner.toScheme := fun _ _ h => by simp [toySigner] at h ⊢
-example : NetOK toySigner.toScheme toyEnv.net := fun _ _ h => by simp [toyEnv] at h
+example : Canon toySigner.toScheme := fun kb k h => by
+  simp only [toySigner] at h ⊢
+  split at h
+  · cases h
+  · rename_i hl
+    cases h
+    have : (List.take 2 kb).length = 2 := by simp; omega
+    simp [this, List.take_take]
+example : NetOK toySigner.toScheme toyEnvKnown.net := fun kb k h => by
+  simp only [toyEnvKnown] at h
+  split at h
+  · rename_i hk
+    cases h
+    have : kb = [5, 5] := by simpa using hk
+    subst this
+    decide
+  · cases h
 example : Honest toySigner :=
-  ⟨fun _ => rfl, fun _ _ => rfl, fun _ _ => by simp [toySigner], fun _ => Nat.one_pos,
+  ⟨fun _ => by simp [toySigner, List.take, List.length], fun _ _ => rfl, fun _ _ => by simp [toySigner], fun _ => Nat.one_pos,
    fun _ => by simp [toySigner, List.length]⟩
 example : EnvsOK toySigner.toScheme Gen.strictVarlen (fun _ => toyEnv) := ⟨fun _ => rfl, fun _ => rfl, fun _ => rfl⟩
+/-- `OnlySigned` is satisfiable non-trivially: under the toy scheme the key [5,5] "signed" exactly the messages whose
+    checksum byte is the one in the signature — here stated for a scheme that accepts one fixed message only -/
+example : OnlySigned { toySigner.toScheme with verify := fun _ m s => m == [1, 2, 3] && s == [0] } [5, 5] [[1, 2, 3]] :=
+  fun m s h => by simp at h; simp [h.1]
 
 /-- an honest datagram (prefix of 22 ones, msg id 246, key [5,5], payload [9,9]) -/
 def toyDatagram : Bytes := Gen.ezrPack toySigner (5 : UInt8) (List.replicate 22 1) 246 [9, 9] true
+/-- the same content with a NON-CANONICAL key encoding (trailing byte 0xAA after the key), signed by the owner -/
+def toyDatagramNC : Bytes :=
+  let body : Bytes := List.replicate 22 1 ++ [246] ++ [0, 3, 5, 5, 0xAA] ++ [9, 9]
+  body ++ [toyTag [5, 5] body]
 
-/-- the hypotheses of `deliver_sound` hold for a concrete call -/
+/-- the hypotheses of `deliver_sound` hold for concrete calls: fresh peer, stored peer (lookup hit), non-canonical key -/
 example : run toyEnv Gen.lazyWrapper toyDatagram = .called [5, 5] [9, 9] none := by decide +kernel
 example : run toyEnv Gen.lazyWrapperWd toyDatagram = .called [5, 5] [9, 9] (some toyDatagram) := by decide +kernel
-/-- one flipped payload bit: rejected at the signature stage -/
-example : run toyEnv Gen.lazyWrapper (toyDatagram.set 27 8) = .rejected .signature := by decide +kernel
+example : run toyEnvKnown Gen.lazyWrapper toyDatagram = .called [5, 5] [9, 9] none := by decide +kernel
+example : touchedBy toyEnvKnown Gen.lazyWrapper toyDatagram = some [5, 5] := by decide +kernel
+example : run toyEnvKnown Gen.lazyWrapper toyDatagramNC = .called [5, 5] [9, 9] none := by decide +kernel
+/-- a key field that does not parse (one byte) -/
+example : run toyEnv Gen.lazyWrapper (List.replicate 22 1 ++ [246, 0, 1, 5, 9, 9, 0]) = .rejected .keyParse := by
+  decide +kernel
+/-- one flipped payload bit: rejected at the signature stage; the stored Peer is not touched -/
+example : run toyEnvKnown Gen.lazyWrapper (toyDatagram.set 27 8) = .rejected .signature := by decide +kernel
+example : touchedBy toyEnvKnown Gen.lazyWrapper (toyDatagram.set 27 8) = none := by decide +kernel
 /-- one flipped prefix bit -/
 example : run toyEnv Gen.lazyWrapper (toyDatagram.set 3 0) = .rejected .signature := by decide +kernel
 /-- truncated by one byte -/
@@ -518,6 +582,12 @@ example : guarded [.unpackAuth 25, .verify, .decode .remainder 23, .assertValid,
 example : guarded [.unpackAuth 23, .verify, .decode .data 23, .assertValid, .lookupPeer, .callPeer] = false := by decide
 example : guarded [.unpackAuth 23, .verify, .decode .remainder 23, .assertValid, .unpackAuth 23, .lookupPeer, .callPeer] = false := by decide
 example : guarded [.unpackAuth 23, .verify, .decode .remainder 23, .lookupPeer, .callPeer, .assertValid] = false := by decide
+/-- the stored Peer's address update moved in front of the signature check: not guarded, and the model shows the
+    effect — a datagram with a broken signature that merely CARRIES the stored key re-points that Peer -/
+example : guarded [.unpackAuth 23, .verify, .decode .remainder 23, .lookupPeer, .touchPeer, .assertValid, .callPeer]
+    = false := by decide
+example : touchedBy toyEnvKnown [.unpackAuth 23, .verify, .decode .remainder 23, .lookupPeer, .touchPeer, .assertValid,
+    .callPeer] (toyDatagram.set 27 8) = some [5, 5] := by decide +kernel
 /-- "reuse the Peer we already track at the source address" (`peer = key lookup or get_verified_by_address(src)`) is
     translated, not refused, and fails the guard; the model then really misattributes: an authentic datagram of key
     [5,5] arriving from an address where [7,7] is verified is handed to the handler as [7,7] -/
@@ -525,18 +595,27 @@ example : guarded [.unpackAuth 23, .verify, .decode .remainder 23, .assertValid,
     .orLookupByAddr, .callPeer] = false := by decide
 example : run { toyEnv with netAddr := some [7, 7] } [.unpackAuth 23, .verify, .decode .remainder 23, .assertValid,
     .lookupPeer, .orLookupByAddr, .callPeer] toyDatagram = .called [7, 7] [9, 9] none := by decide +kernel
-/-- a harmless reordering (lookup before the check) stays guarded -/
-example : guarded [.unpackAuth 23, .lookupPeer, .verify, .assertValid, .decode .remainder 23, .callPeer] = true := by decide
+/-- a harmless reordering (lookup before the check, touch after it) stays guarded -/
+example : guarded [.unpackAuth 23, .lookupPeer, .verify, .assertValid, .decode .remainder 23, .touchPeer, .callPeer]
+    = true := by decide
 /-- `Authentic` is satisfiable -/
 example : Authentic toySigner.toScheme Gen.strictVarlen toyDatagram [5, 5] :=
-  delivered_authentic toyEnv toyDatagram [5, 5] [9, 9]
+  delivered_authentic toyEnv _ toyDatagram [5, 5] [9, 9]
     (deliver_sound toyEnv rfl ⟨fun _ _ _ => Nat.one_pos, fun kb _ _ => by simp [toyEnv, toySigner]⟩
       (fun _ _ h => by simp [toyEnv] at h) _ gen_wrappers_guarded.signed _ _ _ none (by decide +kernel))
-/-- a two-datagram history on a one-handler overlay: the forged datagram adds nobody, the honest one adds [5,5] -/
+/-- histories over TWO overlays sharing one key index, one of them with the reviewed raw handler: the forged datagram
+    adds nobody, the honest one adds [5,5] through the raw handler; afterwards the other overlay's lookup hits -/
 def toyOverlay : Overlay :=
   { name := "toy", pfx := List.replicate 22 1,
+    handlers := [{ msgId := 246, name := "on_intro", kind := .raw, payloads := [] }] }
+def toyOverlay2 : Overlay :=
+  { name := "toy2", pfx := List.replicate 22 1,
     handlers := [{ msgId := 246, name := "on_intro", kind := .signed, payloads := [] }] }
-example : (Node.runHistory Gen.progs toyOverlay (fun _ => toyEnv) (fun _ => true) {}
-    [toyDatagram.set 27 8, toyDatagram]).verified = [[5, 5]] := by decide +kernel
+example : onPacket Gen.progs toyOverlay (fun _ => toyEnv) 22 22 toyDatagram
+    = .handler { msgId := 246, name := "on_intro", kind := .raw, payloads := [] } (.called [5, 5] [9, 9] none) := by
+  decide +kernel
+example : (Node.runHistory Gen.progs (fun _ => toyEnv) (fun _ => true) {}
+    [(toyOverlay, toyDatagram.set 27 8), (toyOverlay, toyDatagram), (toyOverlay2, toyDatagram)]).verified = [[5, 5]] := by
+  decide +kernel
 
 end Ipv8.C01
